@@ -8,7 +8,21 @@ use ndarray_interp::interp1d::{Interp1DBuilder, Linear};
 use ndarray_interp::interp2d::{Bilinear, Interp2DBuilder};
 use ndarray_interp::vector_extensions::{Monotonic, VectorExtensions};
 
-fn out(found: bool, unit: &str, input: String, expected: String, observed: String) {
+thread_local! { static LAST: std::cell::RefCell<Option<(bool, String, String, String)>> = std::cell::RefCell::new(None); }
+fn out(found: bool, _unit: &str, input: String, expected: String, observed: String) {
+    LAST.with(|l| *l.borrow_mut() = Some((found, input, expected, observed)));
+}
+/// run the oracle for `unit`; returns (violation found, input, expected, observed)
+pub fn run(unit: &str) -> (bool, String, String, String) {
+    LAST.with(|l| *l.borrow_mut() = None);
+    probe_inner(unit);
+    LAST.with(|l| l.borrow().clone()).unwrap_or((false, "no result".into(), String::new(), String::new()))
+}
+pub fn probe(unit: &str) {
+    let (found, input, expected, observed) = run(unit);
+    print_json(found, unit, input, expected, observed);
+}
+fn print_json(found: bool, unit: &str, input: String, expected: String, observed: String) {
     println!("{{\"probe\":\"{}\",\"found\":{},\"input\":\"{}\",\"expected\":\"{}\",\"observed\":\"{}\"}}", unit, found, input.replace('"', "'"), expected.replace('"', "'"), observed.replace('"', "'"));
 }
 
@@ -24,6 +38,7 @@ fn axes() -> Vec<Vec<f64>> {
 }
 fn queries(ax: &[f64]) -> Vec<f64> {
     let mut q = vec![f64::NEG_INFINITY, f64::INFINITY, f64::MAX, f64::MIN, ax[0] - 1.0, ax[ax.len() - 1] + 1.0, 0.0, -0.0];
+    q.extend(extra_queries());
     for (i, &k) in ax.iter().enumerate() {
         q.push(k);
         q.push(f64::from_bits(if k > 0.0 { k.to_bits() + 1 } else if k < 0.0 { k.to_bits() - 1 } else { 1 }));
@@ -32,6 +47,8 @@ fn queries(ax: &[f64]) -> Vec<f64> {
     }
     q
 }
+thread_local! { static WITH_NAN: std::cell::Cell<bool> = std::cell::Cell::new(false); }
+fn extra_queries() -> Vec<f64> { if WITH_NAN.with(|w| w.get()) { vec![f64::NAN] } else { vec![] } }
 fn want_index(ax: &[f64], q: f64) -> usize {
     let n = ax.len();
     if q <= ax[0] { return 0; }
@@ -41,7 +58,7 @@ fn want_index(ax: &[f64], q: f64) -> usize {
     i
 }
 
-pub fn probe(unit: &str) {
+fn probe_inner(unit: &str) {
     match unit {
         "get_lower_index" | "Interp1D::get_index_left_of" | "Interp2D::get_index_left_of" => {
             for ax in axes() {
@@ -53,6 +70,49 @@ pub fn probe(unit: &str) {
                         Ok(g) if g == want => {}
                         Ok(g) => return out(true, unit, format!("axis={ax:?} query={q:e}"), format!("index {want}"), format!("index {g}")),
                         Err(_) => return out(true, unit, format!("axis={ax:?} query={q:e}"), format!("index {want}"), "panic".into()),
+                    }
+                }
+            }
+            // the same axes as reversed-stride arrays and as every-2nd-element views of a larger array
+            for ax in axes() {
+                let n = ax.len();
+                let mut rev = Array1::from(ax.iter().rev().copied().collect::<Vec<_>>());
+                rev.invert_axis(ndarray::Axis(0));
+                let mut big = Array1::from_elem(2 * n + 1, f64::NAN);
+                big.slice_mut(ndarray::s![1..;2]).assign(&Array1::from(ax.clone()));
+                let strided = big.slice(ndarray::s![1..;2]);
+                for q in queries(&ax) {
+                    let want = want_index(&ax, q);
+                    for (nm, got) in [("reversed-stride axis", catch_unwind(AssertUnwindSafe(|| rev.get_lower_index(q)))), ("strided axis view", catch_unwind(AssertUnwindSafe(|| strided.get_lower_index(q))))] {
+                        match got {
+                            Ok(g) if g == want => {}
+                            Ok(g) => return out(true, unit, format!("{nm} {ax:?} query={q:e}"), format!("index {want}"), format!("index {g}")),
+                            Err(_) => return out(true, unit, format!("{nm} {ax:?} query={q:e}"), format!("index {want}"), "panic".into()),
+                        }
+                    }
+                }
+            }
+            // integer-valued axes (i32 / i64)
+            let int_axes: Vec<Vec<i64>> = vec![vec![0, 1, 2, 3], vec![-5, -1, 0, 7, 8, 100], vec![0, 4, 5, 6, 8], vec![0, 1_000_000_000, 2_000_000_000], vec![-2_000_000_000, 0, 2_000_000_000], vec![1, 2, 4, 8, 16, 32, 64, 128, 1024]];
+            for ax in int_axes {
+                let n = ax.len();
+                let mut qs: Vec<i64> = vec![ax[0] - 1, ax[n - 1] + 1];
+                for (i, &k) in ax.iter().enumerate() { qs.push(k); qs.push(k + 1); qs.push(k - 1); if i + 1 < n { qs.push(k + (ax[i + 1] - k) / 2); } }
+                for q in qs {
+                    let want = if q <= ax[0] { 0 } else if q >= ax[n - 1] { n - 2 } else { (0..n - 1).find(|&i| ax[i] <= q && q < ax[i + 1]).unwrap() };
+                    let a64 = Array1::from(ax.clone());
+                    match catch_unwind(AssertUnwindSafe(|| a64.get_lower_index(q))) {
+                        Ok(g) if g == want => {}
+                        Ok(g) => return out(true, unit, format!("i64 axis={ax:?} query={q}"), format!("index {want}"), format!("index {g}")),
+                        Err(_) => return out(true, unit, format!("i64 axis={ax:?} query={q}"), format!("index {want}"), "panic".into()),
+                    }
+                    if ax.iter().all(|v| v.abs() <= i32::MAX as i64) && q.abs() <= i32::MAX as i64 {
+                        let a32 = Array1::from(ax.iter().map(|v| *v as i32).collect::<Vec<_>>());
+                        match catch_unwind(AssertUnwindSafe(|| a32.get_lower_index(q as i32))) {
+                            Ok(g) if g == want => {}
+                            Ok(g) => return out(true, unit, format!("i32 axis={ax:?} query={q}"), format!("index {want}"), format!("index {g}")),
+                            Err(_) => return out(true, unit, format!("i32 axis={ax:?} query={q}"), format!("index {want}"), "panic".into()),
+                        }
                     }
                 }
             }
@@ -86,6 +146,7 @@ pub fn probe(unit: &str) {
             out(false, unit, String::new(), String::new(), String::new())
         }
         "Interp1D::is_in_range" | "Linear::interp_into" | "calc_frac" | "Interp1D::index_point" => {
+            WITH_NAN.with(|w| w.set(true));
             for ax in axes() {
                 let n = ax.len();
                 for lanes in [1usize, 3] {
@@ -95,6 +156,7 @@ pub fn probe(unit: &str) {
                         for q in queries(&ax) {
                             let inr = ax[0] <= q && q <= ax[n - 1];
                             if !q.is_finite() && extrap { continue; }
+                            if q.is_nan() && extrap { continue; }
                             let r = catch_unwind(AssertUnwindSafe(|| it.interp(q)));
                             let r = match r { Ok(r) => r, Err(_) => return out(true, unit, format!("axis={ax:?} lanes={lanes} extrapolate={extrap} query={q:e}"), "no panic".into(), "panic".into()) };
                             if !extrap && !inr {
@@ -118,6 +180,7 @@ pub fn probe(unit: &str) {
             out(false, unit, String::new(), String::new(), String::new())
         }
         "Bilinear::interp_into" | "Interp2D::index_point" | "Interp2D::is_in_x_range" | "Interp2D::is_in_y_range" => {
+            WITH_NAN.with(|w| w.set(true));
             let axs = axes();
             for (ai, ax) in axs.iter().enumerate().take(8) {
                 let ay = &axs[(ai + 3) % 8];
@@ -127,6 +190,7 @@ pub fn probe(unit: &str) {
                     let it = Interp2DBuilder::new(data.clone()).x(Array1::from(ax.clone())).y(Array1::from(ay.clone())).strategy(Bilinear::new().extrapolate(extrap)).build().unwrap();
                     for &qx in queries(ax).iter().step_by(3) { for &qy in queries(ay).iter().step_by(2) {
                         if !qx.is_finite() || !qy.is_finite() { if extrap { continue; } }
+                        if (qx.is_nan() || qy.is_nan()) && extrap { continue; }
                         let inr = ax[0] <= qx && qx <= ax[nx - 1] && ay[0] <= qy && qy <= ay[ny - 1];
                         let r = catch_unwind(AssertUnwindSafe(|| it.interp_scalar(qx, qy)));
                         let r = match r { Ok(r) => r, Err(_) => return out(true, unit, format!("x={ax:?} y={ay:?} query=({qx:e},{qy:e}) extrapolate={extrap}"), "no panic".into(), "panic".into()) };
